@@ -3,6 +3,7 @@ CONSTANTS
   SeqVals = {0, 1, 2, 3, 14, 15, 16, 17, 18, 19, 31, 32, 33, 34, 255, 256, 32767, 32768, 65517, 65518, 65519, 65520, 65521, 65533, 65534, 65535}
   MaxList = 3
   RangeLists = 2
+  MaxPairs = 70
   TableIds = {0, 1, 255, 32768, 65520, 65535}
 INVARIANTS LoopInvariant CoverExact BuilderRefines CursorBound RangeIsPrefix RangeComplete Equivariant
 CHECK_DEADLOCK FALSE
